@@ -222,13 +222,18 @@ def rule_py_siblings(ctx, py):
     for q in ("kinetics._compute_dspeciesdt_grid", "kinetics._compute_dspeciesdt_graph"):
         g = py.fn(q)
         incs = pysym.increments(g, "d")
-        got = [v for _, v in incs]
-        w1 = pysym.frat(P("(rates[0] - rates[1]) * (reaction.get_product_stoichiometry(species_label) - "
-                          "reaction.get_substrate_stoichiometry(species_label))"), g, stop={"d", "rates"})
-        w2 = pysym.frat(P("d_rates[1] - d_rates[0]"), g, stop={"d", "d_rates"})
-        got = [pysym.frat(st.value if isinstance(st, ast.AugAssign) else st.value, g, stop={"d", "rates", "d_rates"})
-               for st, _ in incs]
-        got = [v for _, v in [(st, pysym.frat(st.value, g, stop={"d", "rates", "d_rates"})) for st, _ in incs
+        calls = {}
+        for c in ast.walk(g):
+            if isinstance(c, ast.Call) and pyfe.src(c.func) in ("compute_reaction_rates", "compute_diffusion_rates"):
+                calls.setdefault(pyfe.src(c.func), []).append(c)
+        ctx.need(all(len(calls.get(k, ())) == 1 for k in ("compute_reaction_rates", "compute_diffusion_rates")), R,
+                 "%s: the calls of compute_reaction_rates / compute_diffusion_rates not found once each" % q)
+        cr, cd = pyfe.src(calls["compute_reaction_rates"][0]), pyfe.src(calls["compute_diffusion_rates"][0])
+        # the pair each call returns is followed through whatever locals hold it (rates[0], or rf, rr = ...)
+        w1 = pysym.frat(P("((%s)[0] - (%s)[1]) * (reaction.get_product_stoichiometry(species_label) - "
+                          "reaction.get_substrate_stoichiometry(species_label))" % (cr, cr)), g, stop={"d"})
+        w2 = pysym.frat(P("(%s)[1] - (%s)[0]" % (cd, cd)), g, stop={"d"})
+        got = [v for _, v in [(st, pysym.frat(st.value, g, stop={"d"})) for st, _ in incs
                               if isinstance(st, ast.AugAssign)]] + \
               [v for st, v in incs if not isinstance(st, ast.AugAssign)]
         ok1 = any(v.equals(w1) for v in got)
